@@ -280,54 +280,51 @@ def dot_sugar(rep, lib):
     if b is None or rootb is None:
         r.missing("selection::parse_function / extractor::root")
         return
-    sw = [c for c in b.calls if (c.name or "").endswith("<impl str>::starts_with")]
     ff = [c for c in b.calls if (c.name or "").endswith("functions_definitions::find_function")]
-    loops = b.loops()
-    if len(sw) != 1 or len(ff) != 1:
-        r.missing("one starts_with test and one find_function call (found %d / %d)" % (len(sw), len(ff)))
+    rn = [c for c in b.calls if (c.name or "").endswith("selection::read_function_name")]
+    if len(ff) != 1 or len(rn) != 1:
+        r.missing("one read_function_name call and one find_function call in parse_function (found %d / %d)"
+                  % (len(rn), len(ff)))
         return
-    pat = sw[0].args[1]
-    if not (pat.get("k") == "const" and pat.get("ty") == "char" and pat.get("int") == 0x2E):
-        r.bad("parse_function/test", "the sugar is not triggered by a leading `.`", sw[0].where())
-    for dotted in (True, False):
+    from lib.peval import ok as _OK
+    for spelled, dotted in ((".len", True), ("len", False), ("..x", True), ("a.b", False)):
         ev = []
 
-        def model(c, av, envv, pe, dotted=dotted):
+        def model(c, av, envv, pe, spelled=spelled):
             n = c.name or ""
-            if c.bb == sw[0].bb:
-                return (True, ("b", dotted))
+            if c.bb == rn[0].bb and c.body is b:
+                return (True, _OK(("s", spelled)))
             if n.endswith("extractor::root"):
                 return (True, ("tok", "root"))
             if n.endswith("Vec::<T, A>::push") or n.endswith("Vec::<T>::push"):
                 ev.append(("push", pe._deref_all(envv, av[1]) if len(av) > 1 else None, b.in_loop(c.bb)))
                 return (True, ("adt", 0, ()))
-            if c.bb == ff[0].bb:
-                ev.append(("find",))
+            if c.bb == ff[0].bb and c.body is b:
+                ev.append(("find", pe._deref_all(envv, av[0]) if av else None))
                 return (True, ("adt", 1, (None,)))     # stop here: the lookup fails, nothing after it matters
-            if "Index" in (c.full or "") and "RangeFrom" in (c.full or ""):
-                rng = pe._deref_all(envv, av[1]) if len(av) > 1 else None
-                ev.append(("strip", rng))
-                return None
             return None
-        res = PE(b, model, eq_ok=common.derived_eq_ok(lib), max_states=40000).run(start=sw[0].bb)
-        key = "parse_function[name %s a dot]" % ("starts with" if dotted else "does not start with")
-        pre = [e for e in ev if e[0] == "push" and not e[2]]
-        strips = [e for e in ev if e[0] == "strip"]
+        res = PE(b, model, eq_ok=common.derived_eq_ok(lib), max_states=40000).run()
+        key = "parse_function[name %r]" % spelled
+        finds = [e for e in ev if e[0] == "find"]
+        want_name = spelled[1:] if dotted else spelled
+        if not finds or any(e[1] != ("s", want_name) for e in finds):
+            r.bad(key, "the name looked up for %r is %s, expected %r (exactly one leading dot is stripped, nothing "
+                  "else)" % (spelled, sorted({str(e[1]) for e in finds}) or "never looked up", want_name), ff[0].where())
+            continue
+        first_find = min(i for i, e in enumerate(ev) if e[0] == "find")
+        pre = [e for e in ev[:first_find] if e[0] == "push"]
         if dotted:
-            okk = len(pre) == 1 and pre[0][1] == ("tok", "root") and len(strips) == 1 and \
-                strips[0][1] is not None and strips[0][1][0] == "adt" and strips[0][1][2] == (("i", 1),) and \
-                ev.index(pre[0]) < ev.index(("find",))
-            if okk:
-                r.ok(key, "root() pushed first, name[1..] looked up", sw[0].where())
+            if len(pre) == 1 and pre[0][1] == ("tok", "root") and not pre[0][2]:
+                r.ok(key, "root() pushed first, %r looked up" % want_name, ff[0].where())
             else:
-                r.bad(key, "the leading-dot form does not push the current input as first argument and strip exactly "
-                      "the dot: events %s" % ev, sw[0].where())
+                r.bad(key, "the leading-dot form does not push the current input (root()) exactly once as the first "
+                      "argument before the lookup: pushes %s" % [str(e[1]) for e in pre], ff[0].where())
         else:
-            if not pre and not strips and ("find",) in ev:
-                r.ok(key, "nothing pushed, name looked up as read", sw[0].where())
+            if not pre:
+                r.ok(key, "nothing pushed, name looked up as read", ff[0].where())
             else:
-                r.bad(key, "without a leading dot an argument is pushed or the name is altered: events %s" % ev,
-                      sw[0].where())
+                r.bad(key, "without a leading dot an argument is pushed before the lookup: %s"
+                      % [str(e[1]) for e in pre], ff[0].where())
     # root() is the current input itself
     aggs = [rv for bb, idx, place, rv, _ in rootb.assignments() if rv["k"] == "agg" and rv.get("adt") == "extractor::Extract"]
     good = False
